@@ -8,6 +8,7 @@ mod fam_c11;
 mod fam_c06;
 mod fam_hist;
 mod fam_hasher;
+mod fam_c10;
 
 fn main() {
     let args: Vec<String> = std::env::args().collect();
@@ -27,6 +28,7 @@ fn main() {
         "c06" => fam_c06::run(seed, thorough),
         "hist" => fam_hist::run(seed, thorough),
         "hasher" => fam_hasher::run(seed, thorough),
+        "c10" => fam_c10::run(seed, thorough),
         other => {
             eprintln!("unknown family {}", other);
             std::process::exit(2);
